@@ -12,6 +12,7 @@ import random
 import numpy as np
 
 from sim import datagen, tksim
+from sim import env as _env
 from sim.canon import EventLog, h_obj
 
 PROPERTY = "C16"
@@ -116,6 +117,7 @@ def gen_world(rng: random.Random):
         a = rng.uniform(-0.1, 0.2) * fs / 2  # the limits are the user's choice: they may start below 0 Hz ...
         b = rng.uniform(0.5, 1.1) * fs / 2  # ... and end beyond the Nyquist frequency
         w["freqlim"] = [round(a, 4), round(b, 4)]
+    w["log_debug"] = rng.random() < 0.1  # the package logger at DEBUG level: must not change anything
     return w
 
 
@@ -803,6 +805,7 @@ def run_case(seed, tier="quick", case=None, known=()):
         ops_in = copy.deepcopy(case["ops"])
         ndialogs = None
     log = EventLog(seed)
+    _env.set_log_debug(bool(w.get("log_debug")))
     log.add({"world": w})
     res = {"property": PROPERTY, "seed": seed, "world": w, "ops": [], "violations": [], "known": [],
            "counters": {}, "states": [], "sig": [], "sets": {}}
